@@ -30,8 +30,9 @@ def judge(ctx, r):
         if len(s["after"]) != expect:
             ctx.fail(f"{r.desc} step {i} {s['op']}: length {len(s['before'])}->{len(s['after'])}, expected {expect} from the live sizes", rep, ident="length delta")
             return
-        if s["op"][0] == "add" and len(s["after"]) - len(s["before"]) != int(s["blk"].nBytes):
-            ctx.fail(f"{r.desc} step {i}: add grew the file by {len(s['after']) - len(s['before'])}, block size {int(s['blk'].nBytes)}", rep, ident="add delta")
+        nb = s["arg"][2] if s.get("arg") else None     # the size the block reported when it was handed over
+        if s["op"][0] == "add" and nb is not None and len(s["after"]) - len(s["before"]) != nb:
+            ctx.fail(f"{r.desc} step {i}: add grew the file by {len(s['after']) - len(s['before'])}, block size {nb}", rep, ident="add delta")
             return
         if s["op"][0] in ("remove", "remove_obj"):
             gone = set(sizes_b) - set(sizes_a)
